@@ -427,6 +427,29 @@ def check_assembly(ctx, p):
             col = to_poly(tg[2], atomize)
             okshape = row == T and col == II - IO
             missing = [n for n, v in list(need.items()) + list(inner_need.items()) if not v]
+        # "for every tap": past its last dominating test the accumulation cannot be skipped - a
+        # skip written as `a && b` (or any other merge) leaves no dominating guard, so this is a
+        # path question: from the target of that last test, the way back to the tap loop's
+        # `next()` test must pass the store (seed C05j: `if i != 0 && mean == 0.0 { continue }`)
+        skippable = None
+        raw = [r for r in b.guards(bb)]
+        if raw:
+            dom_ = b.dominators()
+            last = max(raw, key=lambda r: len(dom_.get(r[0], ())))
+            lsb, lterm, lval = last
+            if isinstance(lval, tuple) and lval and lval[0] == "not":
+                ltg = lterm.get("otherwise")
+            else:
+                ltg = next((tg for v_, tg in lterm.get("targets", []) if v_ == lval), lterm.get("otherwise"))
+            # the innermost tap loop: the deepest `some` guard on an iter_rev item
+            heads = [r[0] for r, g_ in zip(raw, gl) if g_[0] == "some" and g_[1][0] == "call" and g_[1][2] and g_[1][2][0][0] == "call" and g_[1][2][0][1].endswith("Window::iter_rev")]
+            if heads and ltg is not None:
+                head = max(heads, key=lambda x: len(dom_.get(x, ())))
+                if head != lsb and b.can_reach(ltg, head, avoid={bb}):
+                    skippable = cm.loc_of(lterm.get("span") or st["span"])
+        if skippable is not None:
+            ctx.fail("C05-R6", fn, ("wum" if is_vec else "wuw") + " accumulation skipped", "after its last dominating test the accumulation into %s can still be skipped (a further condition joined with && / || or a merged branch): a tap that has to contribute is left out" % ("wum" if is_vec else "wuw"), loc)
+            continue
         if term == want and okshape and not missing and not extra:
             seen.add("wum" if is_vec else "wuw")
             ctx.ok("C05-R6", name + "  (window i = enumerate index; guards: every frame, window and tap; 0 <= t - pos(o) < length%s)" % ("" if is_vec else "; t + j < length"), loc)
